@@ -6,7 +6,9 @@ import (
 	"regexp"
 	"strings"
 
+	"verifsim/sched"
 	"verifsim/sim"
+	"verifsim/simsync"
 )
 
 var raceOffsets = map[string]int64{}
@@ -100,4 +102,25 @@ func trimTo(s string, n int) string {
 		return s[:n]
 	}
 	return s
+}
+
+// chanProbes reports how much of a run went through goroutines and channel operations of the code under test (the
+// pinned tree has neither in the scheduled packages), and stops the exploration of this process when finished runs left
+// too many goroutines parked in channel operations nobody completes.
+func chanProbes(o *sim.Outcome, s *sched.Sched, spawnedBefore int) {
+	if n := simsync.Spawned() - spawnedBefore; n > 0 {
+		o.Probe("runs_with_goroutines_of_code_under_test")
+	}
+	if s.RealOps > 0 {
+		o.Probe("runs_with_channel_operations")
+		for i := 0; i < s.RealOps && i < 200; i++ {
+			o.Probe("channel_operations")
+		}
+		for i := 0; i < s.RealParked && i < 200; i++ {
+			o.Probe("channel_operations_parked")
+		}
+	}
+	if sched.LeakedReal() > 400 {
+		sim.Recycle = true
+	}
 }
